@@ -105,6 +105,8 @@ def directed(rng, probes=False):
         # a server-initiated call that fails validation and carries the id of a pending request of ours is not that request's reply
         add('badcall-collide-%d' % v, {'callback': bool(v % 2)}, [op('o1'), op('o2', 'batch', [False, False]), D, peer(('badcall', 1 + v, False)), D, peer(('badcall', 2, False), R(3, e)), D,
                                                                  peer(R(1), R(2)), D] + ([dict(a='cbret', id=str(1 + v)), dict(a='cbret', id='2'), D] if v % 2 else []))
+        # replies that spell out the member they do not use as null
+        add('null-members-%d' % v, {}, [op('o1'), op('o2', 'batch', [False, False]), D, peer(('replynull', 1 + v, False)), D, peer(('replynull', [2, 3, 1][v], False), R([3, 1, 2][v], e)), D])
         # the id "1" (a string) is not the id 1 (a number)
         add('string-id-%d' % v, {}, [op('o1'), op('o2', 'batch', [False, False]), D, peer(('strid', 1, False)), D, peer(('strid', 2 + v % 2, False), R(3, e)), D, peer(R(2), R(1)), D])
         # a batch of nothing (an empty, or a nil, list of specs) puts nothing on the channel
